@@ -260,6 +260,26 @@ fn large_cases(out: &mut Vec<Case>) {
     });
 }
 
+/// More distinct blocks than the block cache holds (100) and than the listing fans out at once
+/// (30 sub-directories): 150 one-block files, then 150 files with the same contents again, so that
+/// every block is read a second time after it has been evicted.
+fn many_blocks_case(out: &mut Vec<Case>) {
+    out.push(Case {
+        tag: "many blocks: 150 one-block files and 150 duplicates of them, block 8, cap 3".into(),
+        opts: BOpts::new(1000, 8, 3),
+        sweep: "large",
+        tree: Box::new(|| {
+            let mut t = empty_tree();
+            for round in 0..2 {
+                for i in 0..150u32 {
+                    t.insert(format!("r{round}f{i:03}"), Node::file(format!("{i:08}").as_bytes(), T0 + 80 + i as i64));
+                }
+            }
+            t
+        }),
+    });
+}
+
 /// More than 10 000 index hunks, so that hunk sub-directory i/00001 is used.
 fn rollover_case(out: &mut Vec<Case>) {
     out.push(Case {
@@ -289,6 +309,7 @@ pub fn cases(thorough: bool) -> Vec<Case> {
     metadata_cases(&mut v);
     rollover_case(&mut v);
     large_cases(&mut v);
+    many_blocks_case(&mut v);
     structure_cases(if thorough { 4 } else { 3 }, &mut v);
     layout_cases(if thorough { 3 } else { 2 }, &mut v);
     if thorough {
